@@ -188,6 +188,10 @@ func vc03PrintVal(v vc03Val) string {
 		return `"` + s + `"`
 	default:
 		var sb strings.Builder
+		switch strings.ToUpper(v.text) {
+		case "AND", "OR", "NOT", "TO":
+			return `\` + v.text // an escaped first letter makes the keyword an ordinary term
+		}
 		for i, r := range v.text {
 			if vc03WordRune(r) || (i > 0 && (r == '.' || r == '-')) {
 				sb.WriteRune(r)
@@ -2040,7 +2044,7 @@ func TestVerifStandin_C03(t *testing.T) {
 	nRandom := 6000
 	randDepth := 3
 	if thorough {
-		nRandom = 300000
+		nRandom = 150000
 		randDepth = 4
 	}
 	rng := rand.New(rand.NewSource(seed))
